@@ -12,3 +12,6 @@ import SSEPyVerif.Model.PHash
 import SSEPyVerif.Proofs.PHash
 import SSEPyVerif.Props.C16
 import SSEPyVerif.Driver.CryptoD
+import SSEPyVerif.Model.Cbc
+import SSEPyVerif.Proofs.Cbc
+import SSEPyVerif.Props.C14
